@@ -42,34 +42,20 @@ def natCmp (a b : Nat) : Ordering :=
   if a < b then .lt else if b < a then .gt else .eq
 
 mutual
-/-- tuple comparison `(text, id, kids)` -/
+/-- tuple comparison `(text, id, kids)`: the first component that differs decides -/
 def OKey.cmp : OKey → OKey → Ordering
   | .mk t1 i1 k1, .mk t2 i2 k2 =>
-    match strCmp t1 t2 with
-    | .lt => .lt
-    | .gt => .gt
-    | .eq =>
-      match natCmp i1 i2 with
-      | .lt => .lt
-      | .gt => .gt
-      | .eq => OKey.cmpList k1 k2
-/-- list comparison -/
+    (strCmp t1 t2).then ((natCmp i1 i2).then (OKey.cmpList k1 k2))
+/-- list comparison: element-wise, a proper prefix is smaller -/
 def OKey.cmpList : List OKey → List OKey → Ordering
   | [], [] => .eq
   | [], _ :: _ => .lt
   | _ :: _, [] => .gt
-  | a :: s, b :: t =>
-    match OKey.cmp a b with
-    | .lt => .lt
-    | .gt => .gt
-    | .eq => OKey.cmpList s t
+  | a :: s, b :: t => (OKey.cmp a b).then (OKey.cmpList s t)
 end
 
 /-- `key a <= key b`, the test `list.sort` makes (it never moves `b` before `a` unless `key b < key a`) -/
-def OKey.le (a b : OKey) : Bool :=
-  match OKey.cmp a b with
-  | .gt => false
-  | _ => true
+def OKey.le (a b : OKey) : Bool := (OKey.cmp a b).isLE
 
 /-! ### stable sort
 
